@@ -363,6 +363,49 @@ theorem C03_entered_empty_at_return (p : Program τ) (hwf : p.wellFormed = true)
     rw [(start_fields LoopEnv p.period p.stamp p.houses p.world).2.1]; simp
   exact ⟨run_inv idleEmpty_step fuel _ hidle, run_inv sweepYield_step fuel _ hev⟩
 
+/-- part 1 applies to every run of a well-formed program: the start state satisfies the world invariant
+of `C03_loopEnv_faithful`, has distinct ids in the deque (if no framer is declared twice) and nothing aborted -/
+theorem C03_program_applies (p : Program τ) (hwf : p.wellFormed = true) (hnd : (declared p.houses).Nodup) :
+    let s0 := start LoopEnv p.period p.stamp p.houses p.world
+    DeadAborted s0.world ∧ (ids s0.ready).Nodup ∧ s0.aborted = [] := by
+  have hwf' := hwf
+  unfold Program.wellFormed at hwf'
+  simp only [Bool.and_eq_true, List.all_eq_true, decide_eq_true_eq] at hwf'
+  let n := p.framers.length
+  have h0 : (fun s : St τ (World τ) => (∀ k, k < n → (s.world.framers k).alive = true) ∧
+      (∀ k, ¬ k < n → (s.world.framers k).status = .aborted) ∧ s.aborted = [])
+      (start LoopEnv p.period p.stamp p.houses p.world) := by
+    apply start_inv_mem (I := fun s : St τ (World τ) => (∀ k, k < n → (s.world.framers k).alive = true) ∧
+      (∀ k, ¬ k < n → (s.world.framers k).status = .aborted) ∧ s.aborted = [])
+    · intro s i hi hI
+      have hin : i < n := hwf'.1.1 i hi
+      refine ⟨?_, ?_, hI.2.2⟩
+      · intro k hk
+        show ((setStatus i .stopped (setDesire i _ s.world)).framers k).alive = true
+        simp only [setStatus, setDesire, World.modF]
+        split
+        · rename_i h; subst h; simpa using hI.1 k hk
+        · exact hI.1 k hk
+      · intro k hk
+        show ((setStatus i .stopped (setDesire i _ s.world)).framers k).status = .aborted
+        have hki : k ≠ i := fun h => hk (h ▸ hin)
+        simp only [setStatus, setDesire, World.modF, hki, if_false]
+        exact hI.2.1 k hk
+    · refine ⟨?_, ?_, rfl⟩
+      · intro k hk
+        simp only [Program.world, List.getD_eq_getElem?_getD, List.getElem?_eq_getElem hk, Option.getD_some]
+        have := hwf'.2 p.framers[k] (List.getElem_mem hk)
+        simpa using this.1.1.2
+      · intro k hk
+        have : p.framers[k]? = none := by simp; omega
+        simp [Program.world, List.getD_eq_getElem?_getD, this]
+  refine ⟨?_, ?_, h0.2.2⟩
+  · intro k hk
+    by_cases hkn : k < n
+    · rw [h0.1 k hkn] at hk; simp at hk
+    · exact h0.2.1 k hkn
+  · rw [(start_fields LoopEnv p.period p.stamp p.houses p.world).1]; exact hnd
+
 /-! ## non-vacuity: two framers with nested frames, an interrupt after pass 0, a crash in the sweep -/
 
 def demoLoop : Program Rat :=
@@ -391,6 +434,18 @@ example :
     (p.run 50).1 = .raised (.exception "RuntimeError") ∧
     ((p.run 50).2.events.filter (·.phase = .final)).map (·.id) = [0] ∧
     ((p.run 50).2.world.framers 1).actives = [0] := by
+  decide +kernel
+
+/-- non-vacuity of `C03_stops_first_idle_tick`: a framer that bids `stop me` on entry is started in pass 0
+(so the loop goes on), stopped in pass 1, and pass 1 ends the run with "no running or started taskers" -/
+def demoStop : Program Rat :=
+  { period := 1/8, stamp := 0, houses := [{ fronts := [], mids := [0], backs := [] }],
+    framers := [{ active := true, period := 0, frames := [{ enacts := [.record, .bid [0] .stop], exacts := [.record] }] }] }
+
+example :
+    (match stateAt LoopEnv 1 (start LoopEnv demoStop.period demoStop.stamp demoStop.houses demoStop.world) with
+     | some s => (match tick LoopEnv s with | .done .noMore _ => true | _ => false)
+     | none => false) = true ∧ demoStop.wellFormed = true := by
   decide +kernel
 
 end Ioflo.SkedLoop
